@@ -1123,6 +1123,8 @@ class Interp:
                 return obj.enc
             return BoundMethod(obj, ("arr2", name))
         if isinstance(obj, SFile):
+            if name == "mode":
+                return getattr(obj, "mode", "rb")
             return BoundMethod(obj, ("file", name))
         if isinstance(obj, tuple) and len(obj) == 2 and obj[0] == "np":
             return ("np", obj[1] + "." + name)
